@@ -110,8 +110,8 @@ package ast
 //@   call New#*: assert error-names-the-page: arg1 == progFilePath
 //@   call New#0: assert line-in-the-page: arg0 == line
 //@   call New#1: assert line-in-the-page: arg0 == line
-//@   call New#2: assert line-of-the-offending-slot: arg0 == slot__1.Token.Pos.EndLine + 1
 //@   call New#3: assert line-of-the-offending-slot: arg0 == slot__1.Token.Pos.EndLine + 1
+//@   call New#2: assert line-of-the-offending-slot: arg0 == slot__1.Token.Pos.EndLine + 1
 //@   loop 1: invariant line == comp.Token.Pos.EndLine + 1
 //@   requires prog != nil && forall(k, 0, len(prog.Statements), prog.Statements[k] != nil && refof(prog.Statements[k]) != 0)
 //@   requires forall(i, 0, len(p.Components), forall(j, 0, len(p.Components), i != j ==> p.Components[i] != p.Components[j]))
